@@ -220,7 +220,19 @@ def run_case(case) -> CaseResult:
         labels.add('match:' + (ln['marker'] or ln['kind']))
 
     log: List[str] = []
-    copts = {'known_hosts': kh.encode(), 'host': host, 'port': port}
+    kh_arg: Any = kh.encode()
+
+    if case.get('shared'):
+        # one SSHKnownHosts object reused across lookups: earlier lookups
+        # (other names, addresses, ports) must not change what this
+        # connection trusts
+        kh_arg = asyncssh.import_known_hosts(kh)
+        labels.add('shared-known-hosts-object')
+
+        for ph, pa, pp in case['shared']:
+            kh_arg.match(ph, pa, pp if pp != 22 else None)
+
+    copts = {'known_hosts': kh_arg, 'host': host, 'port': port}
     if alias:
         copts['host_key_alias'] = alias
 
@@ -396,7 +408,8 @@ def judge(waiter, expect: bool, why: str, log: List[str], labels) -> str:
 def strategy(tier: str):
     name_pat = pick([HOST, OTHER, '*.example', 's?v.example',
                      '!' + HOST + ',*.example', '!' + OTHER + ',*.example',
-                     OTHER + ',' + HOST, ADDR, '10.1.2.*',
+                     OTHER + ',' + HOST, ADDR, '10.1.2.*', '10.1.2.4',
+                     '10.9.*', '[10.1.2.4]:2222',
                      '[' + HOST + ']:2222', '[' + OTHER + ']:2222',
                      '[' + ADDR + ']:2222', 'alias.example', 'H:' + HOST,
                      'H:' + OTHER, 'H:[' + HOST + ']:2222',
@@ -448,15 +461,72 @@ def strategy(tier: str):
         [L('key', HOST, 'k1'), L('revoked', ADDR, 'k1')],
         [L('key', '[' + HOST + ']:2222', 'k2'), L('key', HOST, 'k1')],
         [L('ca', 'alias.example', 'ca1'), L('key', 'alias.example', 'k3')],
+        # keys that belong to OTHER addresses / names than the target: a
+        # lookup for the target must never pick them up, whatever was
+        # looked up before on the same SSHKnownHosts object
+        [L('key', HOST, 'k1'), L('key', '10.1.2.4', 'k2')],
+        [L('key', HOST, 'k1'), L('key', '10.9.*', 'k3'),
+         L('ca', '10.1.2.4', 'ca1')],
+        [L('key', HOST + ',' + ADDR, 'k1'), L('key', OTHER, 'k2'),
+         L('revoked', '10.1.2.4', 'k1')],
+        [L('key', '[' + HOST + ']:2222', 'k1'),
+         L('key', '[10.1.2.4]:2222', 'k2')],
     ]
 
     return st.fixed_dictionaries({
         'lines': st.tuples(pick(presets),
                            st.lists(line(), min_size=0, max_size=5))
         .map(lambda t: list(t[0]) + t[1]).filter(bool),
+        'shared': st.one_of(
+            st.just([]), st.lists(st.tuples(
+                pick([HOST, HOST, OTHER, 'alias.example']),
+                pick([ADDR, '10.1.2.4', '10.1.2.4', '10.9.9.9', '']),
+                pick([22, 2222])).map(list), min_size=1, max_size=4)),
         'alias': pick([None, None, 'alias.example']),
         'port': pick([22, 22, 2222]),
         'identity': ident})
+
+
+def leak_cases(tier: str):
+    """Stateless lookups: a shared SSHKnownHosts object is asked about other
+    (name, address, port) triples first; the connection must then trust
+    exactly what a fresh object would"""
+
+    def L(kind, pat, key):
+        marker = {'ca': 'cert-authority', 'revoked': 'revoked'}.get(kind, '')
+        return {'kind': kind, 'pattern': pat, 'marker': marker, 'key': key}
+
+    files = [
+        [L('key', HOST, 'k1'), L('key', '10.1.2.4', 'k2')],
+        [L('key', HOST, 'k1'), L('key', '10.9.*', 'k3'),
+         L('key', OTHER, 'k2')],
+        [L('key', HOST + ',' + ADDR, 'k1'), L('key', OTHER + ',10.1.2.4',
+                                              'k2'),
+         L('revoked', '10.1.2.4', 'k1')],
+        [L('key', '[' + HOST + ']:2222', 'k1'),
+         L('key', '[10.1.2.4]:2222', 'k2'), L('key', HOST, 'k3')],
+        [L('ca', HOST, 'ca1'), L('ca', '10.1.2.4', 'ca2'),
+         L('key', OTHER, 'k1')],
+    ]
+    priors = [(h, a, p) for h in (HOST, OTHER)
+              for a in (ADDR, '10.1.2.4', '10.9.9.9')
+              for p in (22, 2222)]
+
+    for lines in files:
+        for port in (22, 2222):
+            for prior in priors:
+                for rep in (1, 3):
+                    for key in ('k1', 'k2', 'k3'):
+                        yield {'lines': lines, 'alias': None, 'port': port,
+                               'shared': [list(prior)] * rep,
+                               'identity': {'kind': 'plain', 'key': key}}
+                    yield {'lines': lines, 'alias': None, 'port': port,
+                           'shared': [list(prior)] * rep,
+                           'identity': {'kind': 'cert', 'key': 'ku',
+                                        'ca': 'ca2', 'type': 'host',
+                                        'window': 'valid',
+                                        'principals': 'host',
+                                        'corrupt': False, 'via_ref': False}}
 
 
 FAMILIES = [
@@ -470,6 +540,9 @@ FAMILIES = [
                              'why:cert:future', 'why:cert:principal',
                              'why:cert:bad-signature', 'why:liar',
                              'match:key', 'match:cert-authority',
-                             'match:revoked']},
+                             'match:revoked', 'shared-known-hosts-object']},
            case_timeout=120),
+    Family('leak', run_case, enumerate=leak_cases, exhaustive=True,
+           required={'all': ['shared-known-hosts-object', 'accepted',
+                             'rejected']}, case_timeout=120),
 ]
